@@ -667,8 +667,73 @@ fn huge_region_streams() {
     out::count("huge_region_stream_variants", 6);
 }
 
+/// Data-dependent paths on a large FILE-backed region with existing non-zero contents: page-aligned
+/// multi-MiB writes of zeros / of one repeated byte / of ordinary data must read back, through
+/// every read route and through the file, exactly like any other write.
+#[cfg(not(feature = "xen"))]
+fn big_file_region_data_patterns() {
+    use std::os::unix::fs::FileExt;
+    use vm_memory::{FileOffset, GuestMemoryMmap, GuestRegionMmap};
+    let len = 6usize << 20;
+    let f = crate::models::world::temp_file(len as u64 + 8192);
+    let f2 = f.try_clone().unwrap();
+    let base = 0x3_0000_0000u64;
+    let reg = GuestRegionMmap::<()>::from_range(GuestAddress(base), len, Some(FileOffset::new(f, 4096))).expect("file region");
+    let gm = GuestMemoryMmap::from_regions(vec![reg]).unwrap();
+    let region = gm.iter().next().unwrap();
+    let pat = |i: usize| -> u8 { ((i ^ (i >> 9) ^ (i >> 17)) as u8) | 1 };
+    let mut model: Vec<u8> = (0..len).map(pat).collect();
+    // SAFETY: the region's own mapping.
+    unsafe { std::slice::from_raw_parts_mut(region.as_ptr(), len) }.copy_from_slice(&model);
+    let mut step = 0u64;
+    for (fill, what) in [(Some(0u8), "zeros"), (Some(0xffu8), "ones"), (Some(0x41u8), "repeated-byte"), (None, "ordinary-data")] {
+        for (off, n) in [(0usize, 2usize << 20), (2 << 20, 2 << 20), (4096, 4 << 20), (1 << 20, (2 << 20) + 4096), (4097, 2 << 20), (0, len)] {
+            for route in 0..3u8 {
+                let data: Vec<u8> = match fill {
+                    Some(b) => vec![b; n],
+                    None => (0..n).map(|i| pat(i.wrapping_mul(7) + step as usize) ^ 0x55).collect(),
+                };
+                let ok = match route {
+                    0 => gm.write(&data, GuestAddress(base + off as u64)).ok() == Some(n),
+                    1 => gm.write_slice(&data, GuestAddress(base + off as u64)).is_ok(),
+                    _ => region.write(&data, MemoryRegionAddress(off as u64)).ok() == Some(n),
+                };
+                model[off..off + n].copy_from_slice(&data);
+                // read back: interface, raw mapping, file
+                let mut back = vec![0u8; n + 64];
+                let lo = off.saturating_sub(32);
+                let hi = (off + n + 32).min(len);
+                let got = gm.read(&mut back[..hi - lo], GuestAddress(base + lo as u64)).ok();
+                // SAFETY: the region's own mapping.
+                let raw = unsafe { std::slice::from_raw_parts(region.as_ptr().add(lo), hi - lo) };
+                let mut fb = vec![0u8; 8192];
+                let probe = off + n - 4096;
+                let _ = f2.read_at(&mut fb[..4096], 4096 + probe as u64);
+                if !ok || got != Some(hi - lo) || back[..hi - lo] != model[lo..hi] || raw != &model[lo..hi] || fb[..4096] != model[probe..probe + 4096] {
+                    out::viol(&format!("C03/big-file-region/{}/what-was-written-is-not-what-is-read-back", what), jobj! {"route" => route, "off" => off, "len" => n, "write_ok" => ok, "interface_differs" => back[..hi - lo] != model[lo..hi], "mapping_differs" => raw != &model[lo..hi], "file_differs" => fb[..4096] != model[probe..probe + 4096]});
+                    return;
+                }
+                // put the non-zero pattern back so that the next write has something to destroy
+                let orig: Vec<u8> = (off..off + n).map(pat).collect();
+                let _ = region.write(&orig, MemoryRegionAddress(off as u64));
+                model[off..off + n].copy_from_slice(&orig);
+                out::key(&format!("big-file-region|{}|route{}|off{}|len{}", what, route, if off % 4096 == 0 { "aligned" } else { "unaligned" }, n >> 20), true);
+                out::eval(1);
+                step += 1;
+            }
+        }
+    }
+    out::count("big_file_region_writes", step as i128);
+}
+
 pub fn run(args: &Args) {
     out::set_quiet_cases(true);
+    #[cfg(not(feature = "xen"))]
+    if args.shard().0 == 1 % args.shard().1 && !cfg!(miri) && !args.flag("nohuge") {
+        if let Err(p) = guarded(big_file_region_data_patterns) {
+            out::viol(&format!("C03/panic/big-file-region/{}", panic_sig(&p)), J::s(p));
+        }
+    }
     #[cfg(not(feature = "xen"))]
     if args.shard().0 == 0 && !cfg!(miri) && !args.flag("nohuge") {
         if let Err(p) = guarded(huge_region_streams) {
